@@ -429,7 +429,24 @@ func HarnessC11Arr() {
 			return &object.Array{Elements: es}
 		}
 		x := vInt64("x")
-		inner := vChoice("inner-length", 2)
+		inner := vChoice("inner-length", 3)
+		if inner == 2 {
+			// objects are equal when they have the same properties with equal values - not when one has more
+			mkObj := func(n int, av int64) *object.Obj {
+				o := &object.Obj{Pairs: map[string]object.Object{"a": &object.Int{Value: av}}}
+				if n == 2 {
+					o.Pairs["b"] = &object.Int{Value: 2}
+				}
+				return o
+			}
+			na, nb := 1+vChoice("props-a", 2), 1+vChoice("props-b", 2)
+			y := vInt64("y")
+			res, err := hCall(T, "contains", &object.Array{Elements: []object.Object{mkObj(na, x)}}, mkObj(nb, y))
+			vAssert(err == nil, "contains-no-error")
+			got, isBool := res.(*object.Bool)
+			vAssert(isBool && got.Value == (na == nb && x == y), "contains-is-structural-equality")
+			break
+		}
 		var a, b *object.Array
 		if inner == 0 {
 			a, b = mk(vChoice("storage-a", 2)), mk(vChoice("storage-b", 2))
